@@ -28,6 +28,7 @@ class Compiler:
         self.next_internal_symbol_prefix = 1
         self.times_file_compiled = collections.defaultdict(int)
         self.repetitions_compiled = 0
+        self.include_depth = 0
         self.internal_prefix_to_state = {}
 
 
